@@ -490,10 +490,34 @@ def resize_runs(ctx):
     NEW = ("new_size",)
     out = []
     unmodelled = []
+    pushers = set(area_pushers(facts)) - {body["path"]}
+    protp = facts.method(AXE, "mem_prot")["path"]
     for cname, nrank, orank in SIZE_CLASSES:
         mp = M.MemPrims(facts)
         atom = lambda v: v[0] == "field" and v[2] == "data"
-        sm = SQ.SeqMapPrims(facts, (), (), chain=mp.intercept, atom_pred=atom)
+
+        def chain(I, path, frame, t, name, args, mp=mp):
+            short = name.rsplit("::", 1)[1].split("::<")[0] if "::" in name else name
+            if name.startswith("std::vec::Vec") and short in ("remove", "swap_remove") and "MemoryArea" in " ".join(t["f"].get("gargs", [])):
+                # the area is taken out of the list (to be put back): its value is the scanned area
+                path.events.append(("area_removed",))
+                return [(M.AREA, path)]
+            if name in pushers or any(name == p_ or name.startswith(p_ + "::") for p_ in pushers):
+                path.events.append(("recreate", tuple(args[1:])))
+                return [(A.OK(A.UNIT), path)]
+            cb = facts.bodies.get(name)
+            if cb is not None and cb.get("impl_self") == AXE and cb["kind"] != "Closure" and name != body["path"] and name != protp:
+                # a public creation wrapper forwarding to a pusher
+                for blk in cb["blocks"]:
+                    tt = blk["term"]
+                    if tt["k"] == "call" and F.callee_name(tt) in pushers:
+                        path.events.append(("recreate", tuple(args[1:])))
+                        return [(A.OK(A.UNIT), path)]
+            if name == protp:
+                path.events.append(("prot", args[1], args[2]))
+                return [(A.OK(A.UNIT), path)]
+            return mp.intercept(I, path, frame, t, name, args)
+        sm = SQ.SeqMapPrims(facts, (), (), chain=chain, atom_pred=atom)
 
         def rank(t, nrank=nrank, orank=orank):
             t = U.strip(t)
@@ -533,6 +557,19 @@ def resize_runs(ctx):
                 else:
                     key = ("elem", root)
                 elems.setdefault(key, {})[fn[-1]] = e[2]
+            rec = [e for e in o.path.events if e[0] == "recreate"]
+            if rec and any(e[0] == "area_removed" for e in o.path.events):
+                # remove + re-create: the new area's fields are the creation arguments; its mask is the creator's default
+                a_ = rec[-1][1]
+                datas = [x for x in a_ if SQ.is_seq(x, atom)]
+                starts = [x for x in a_ if not SQ.is_seq(x, atom) and U.strip(x)[0] in ("start_addr", "field")]
+                prots = [e for e in o.path.events if e[0] == "prot"]
+                carried = any(U.strip(e[2]) == ("field", M.AREA, "access") for e in prots)
+                elems[("elem", "iterated")] = {"data": datas[0] if datas else ("?",),
+                                               "length": SQ.seq_len(datas[0]) if datas else ("?",),
+                                               "access": ("field", M.AREA, "access") if carried else ("default-mask",)}
+                if starts and U.strip(starts[0]) not in (("start_addr",), ("field", M.AREA, "start")):
+                    elems[("elem", "iterated")]["start"] = starts[0]
             out.append((cname, "err" if is_err(o) else "ok", elems, o.path))
     return body, out, unmodelled
 
@@ -578,6 +615,9 @@ def resize_copy(ctx):
         key, fields = list(elems.items())[0]
         if "start" in fields:
             rbad = rbad or "the area's start is reassigned"
+        if "access" in fields and U.strip(fields["access"]) != ("field", M.AREA, "access"):
+            rbad = rbad or "the resized area does not keep its permission mask (%s)" % (
+                "re-created with the creator's default mask" if fields["access"] == ("default-mask",) else A.show(fields["access"])[:40])
         if "data" not in fields or "length" not in fields:
             ibad = ibad or "only %s of the area is updated: length != data.len() afterwards" % "/".join(sorted(fields))
             continue
